@@ -1,5 +1,6 @@
 """Quantities machine: C03 C06 C11 C12 (spec/Quantities.tla, MC_Quantities)."""
 import json
+import os
 import random
 from decimal import Decimal
 from fractions import Fraction
@@ -450,6 +451,7 @@ def run_quant(prop, tier, seed):
     if prop == "C11":
         import algebra
         algebra.run_algebra(v, "C11", seed)
+        prefix_on_scales(v, seed)
     v.exhaustive = True
     v.rule = ("cases = (operator spelling, operands) enumerated by TLC over the pool; each executed once on the real library; "
               "non-trivial = cases whose operands are commensurable and the operation returned (value judged) or whose "
@@ -477,6 +479,87 @@ def sorted_triples(v, system, tier, seed):
     v.extra["sorted_lists"] = res["n"]
     for k, d in res["bad"][:5]:
         v.violations.append({"prop": "C12", "key": k, "detail": d, "path": []})
+
+
+def prefix_on_scales(v, seed):
+    """C11 where the unit is an offset scale: m * (p * u) is (m * value(p)) * u - as readings compared with ==, and as
+    temperatures after conversion to every other scale, prefixed or not (1e-9).  The exact affine definitions themselves
+    are C10's subject; here only the two spellings of one quantity are compared with each other."""
+    from core import run_isolated
+    res = run_isolated(_prefix_scales_child, seed)
+    v.impl += res["n"]
+    v.evaluations += res["n"]
+    v.extra["prefix_on_offset_scales"] = res["n"]
+    seen = set()
+    for k, d in res["bad"]:
+        if k not in seen:
+            seen.add(k)
+            v.violations.append({"prop": "C11", "key": k, "detail": d, "path": []})
+
+
+def _prefix_scales_child(seed):
+    import sys
+    from core import REPO
+    sys.path.insert(0, os.path.join(REPO, "src"))
+    from decimal import Decimal
+    import measured.si as si
+    import measured.us as us
+    from measured import Quantity
+    scales = [si.Kelvin, si.Celsius, us.Fahrenheit, us.Rankine]
+    prefixes = [si.Kilo, si.Milli, si.Micro, si.Hecto]
+    bad, n = [], 0
+    for u in scales:
+        for p in prefixes:
+            vp = p.quantify()
+            for m0 in (1, 20, -5, 0, 2.5, 1000, Decimal("12.5")):
+                a = Quantity(m0, p * u)                                   # m * (p*u), the prefix stays on the unit
+                b = Quantity(m0 * (Decimal(repr(vp)) if isinstance(m0, Decimal) else vp), u)      # (m * value(p)) * u
+                n += 1
+                tag = "%s:%s" % ("offset" if u in (si.Celsius, us.Fahrenheit) else "degree", "negative-exponent" if vp < 1 else "positive-exponent")
+                try:
+                    # (== is exact: judged where the prefix factor is exact in the magnitude's type - whole factors, int or
+                    # float magnitudes; 10**-3 times a Decimal is a rounding tie)
+                    if vp >= 1 and not isinstance(m0, Decimal) and not (a == b and b == a):
+                        bad.append(("scale:prefixed-reading-differs:%s" % tag, "%r == %r is False" % (a, b)))
+                except Exception as ex:
+                    bad.append(("scale:compare-raised:%s" % type(ex).__name__, "%r vs %r" % (a, b)))
+                for t in scales:
+                    for tp in [None] + prefixes[:2]:
+                        target = t if tp is None else tp * t
+                        try:
+                            x, y = a.in_unit(target).magnitude, b.in_unit(target).magnitude
+                        except Exception as ex:
+                            bad.append(("scale:convert-raised:%s" % type(ex).__name__, "%r / %r -> %s" % (a, b, target)))
+                            continue
+                        n += 1
+                        fx, fy = float(x), float(y)
+                        if abs(fx - fy) > 1e-9 * max(abs(fx), abs(fy)) + 1e-9 * (abs(float(m0)) * float(vp) + 500) / (float(tp.quantify()) if tp else 1.0):
+                            bad.append(("scale:prefixed-source-converts-differently:%s->%s" % (tag, "prefixed-target" if tp else "plain-target"),
+                                        "%r -> %s gives %r, %r -> %s gives %r" % (a, target, x, b, target, y)))
+                # a prefixed TARGET means the prefix factor times the target: x (p*t) is x * value(p) t
+                for t in scales:
+                    try:
+                        plain = float(b.in_unit(t).magnitude)
+                    except Exception:
+                        continue
+                    for tp in prefixes:
+                        try:
+                            pref = float(b.in_unit(tp * t).magnitude) * float(tp.quantify())
+                        except Exception as ex:
+                            bad.append(("scale:convert-raised:%s" % type(ex).__name__, "%r -> %s" % (b, tp * t)))
+                            continue
+                        n += 1
+                        if abs(pref - plain) > 1e-9 * max(abs(pref), abs(plain)) + 1e-7:
+                            bad.append(("scale:prefixed-target-is-not-the-factor-times-the-target:%s" % ("offset-crossed" if (u in (si.Celsius, us.Fahrenheit)) != (t in (si.Celsius, us.Fahrenheit)) or (u is not t and u in (si.Celsius, us.Fahrenheit)) else "no-offset"),
+                                        "%r -> %s gives %r, times the prefix %r; -> %s gives %r" % (b, tp * t, pref / float(tp.quantify()), float(tp.quantify()), t, plain)))
+                # stripping the prefix does not change the value
+                try:
+                    un = a.unprefixed()
+                    if un.unit is not u or abs(float(un.magnitude) - float(b.magnitude)) > 1e-9 * max(1.0, abs(float(b.magnitude))):
+                        bad.append(("scale:unprefixed-changes-value:%s" % tag, "%r.unprefixed() is %r" % (a, un)))
+                except Exception as ex:
+                    bad.append(("scale:unprefixed-raised:%s" % type(ex).__name__, "%r" % (a,)))
+    return {"n": n, "bad": bad}
 
 
 def extreme_magnitudes(v, system, seed):
